@@ -316,7 +316,6 @@ func e12NeverReadyCase(seed uint64, n int) Case {
 	}}
 }
 
-
 // e12PointRun: a controller whose first list takes one virtual second, a tree
 // (monitors, filtered and deferred nodes with filters supplied) built while
 // that list is in flight, then: first list applied, ready, events, one relist.
